@@ -175,7 +175,7 @@ def knobs(rng):
 
 def plan(tier, seed):
     quick = tier == "quick"
-    return {"nshards": 16, "params": {"soft_s": 75 if quick else 800, "script_len": 8 if quick else 16, "ninputs": 5 if quick else 12}, "hard_timeout_s": 400 if quick else 3000}
+    return {"nshards": 16, "params": {"soft_s": 300 if quick else 1200, "nprograms": 50 if quick else 600, "script_len": 8 if quick else 16, "ninputs": 5 if quick else 12}, "hard_timeout_s": 700 if quick else 3400}
 
 
 def shard(ctx):
